@@ -993,6 +993,29 @@ func (env *SpecEnv) call(e *SExpr) SVal {
 				}
 			}
 			return SVal{T: BoolLit(ok), Typ: types.Typ[types.Bool]}
+		case "infunc":
+			// (call-site conditions) the function making the call is the named one
+			name := args[0].Val
+			top := env.st.top().fn
+			ok := top.Name() == name || strings.HasSuffix(top.String(), "."+name) || strings.HasSuffix(top.String(), ")."+name)
+			return SVal{T: BoolLit(ok), Typ: types.Typ[types.Bool]}
+		case "callerlocal":
+			// (call-site conditions) a parameter or local of the function making the call; a
+			// caller without such a variable makes every comparison with it false
+			name := args[0].Val
+			f := env.st.top()
+			for i, p := range f.fn.Params {
+				if p.Name() == name {
+					if t, ok := f.regs[f.fn.Params[i]].(*Term); ok {
+						return SVal{T: t, Typ: p.Type()}
+					}
+				}
+			}
+			fe2 := fv.frameEnv(env.st, f)
+			if v, ok := fe2.local(name); ok {
+				return v
+			}
+			return SVal{NoCall: true, Typ: types.Typ[types.Bool]}
 		case "mayHaveCalled":
 			// true unless no call of that name can have happened on this path (loops included)
 			name := args[0].Val
